@@ -1026,8 +1026,12 @@ def run(lines, out, args):
                 subs_ep = ep == "subscriptions"
                 if subs_ep:
                     reg.subscribe((IR,), IP, fac1)
+                    reg.subscribe((), IP, fac2)
                 else:
                     reg.register((IR,), IP, "", fac1)
+                    reg.register((), IP, "lower-arity", fac2)
+                # (the registration of a LOWER arity for the same provided interface keeps the extendors entry non-empty after the
+                # removal, so that the walk does go on to fetch the table of the arity that has just been pruned away)
 
                 class HookExt(dict):
                     def get(self, k, d=None):
